@@ -6,23 +6,53 @@ import (
 	"fmt"
 )
 
-// under computed_requires Delta.weight is a resolver that receives the
-// representation's required fields
+func fedNum(v any) (int, error) {
+	switch v := v.(type) {
+	case json.Number:
+		n, err := v.Int64()
+		return int(n), err
+	case int64:
+		return int(v), nil
+	case int:
+		return v, nil
+	}
+	return 0, fmt.Errorf("not a number: %T", v)
+}
+
+// under computed_requires Delta.weight and Delta.area are resolvers that
+// receive the representation's required fields
 func (r *fedRoot) Delta() DeltaResolver { return &deltaResolver{r.w} }
 
 type deltaResolver struct{ w *fedWorld }
 
 func (r *deltaResolver) Weight(ctx context.Context, obj *Delta, federationRequires map[string]any) (int, error) {
-	switch v := federationRequires["size"].(type) {
-	case json.Number:
-		n, err := v.Int64()
-		return 1000 + int(n), err
-	case int64:
-		return 1000 + int(v), nil
-	case int:
-		return 1000 + v, nil
+	n, err := fedNum(federationRequires["size"])
+	if err != nil {
+		return 0, fmt.Errorf("requires without size: %v", federationRequires)
 	}
-	return 0, fmt.Errorf("requires without size: %v", federationRequires)
+	d, _ := federationRequires["dims"].(map[string]any)
+	wd, err := fedNum(d["width"])
+	if err != nil {
+		return 0, fmt.Errorf("requires without dims.width: %v", federationRequires)
+	}
+	return 1000 + n + wd, nil
+}
+
+func (r *deltaResolver) Area(ctx context.Context, obj *Delta, federationRequires map[string]any) (int, error) {
+	n, err := fedNum(federationRequires["size"])
+	if err != nil {
+		return 0, fmt.Errorf("requires without size: %v", federationRequires)
+	}
+	d, _ := federationRequires["dims"].(map[string]any)
+	wd, err := fedNum(d["width"])
+	if err != nil {
+		return 0, fmt.Errorf("requires without dims.width: %v", federationRequires)
+	}
+	ht, err := fedNum(d["height"])
+	if err != nil {
+		return 0, fmt.Errorf("requires without dims.height: %v", federationRequires)
+	}
+	return wd*ht + n, nil
 }
 
 func (r *fedRoot) Zeta() ZetaResolver { return &zetaResolver{r.w} }
@@ -31,4 +61,8 @@ type zetaResolver struct{ w *fedWorld }
 
 func (r *zetaResolver) Weight(ctx context.Context, obj *Zeta, federationRequires map[string]any) (int, error) {
 	return 7, nil
+}
+
+func (r *zetaResolver) Area(ctx context.Context, obj *Zeta, federationRequires map[string]any) (int, error) {
+	return 9, nil
 }
